@@ -5,6 +5,8 @@ From AV Require Import Base.ITree Model.D00 Model.D01.
 From AV Require Import Model.D02.
 From AV Require Import Model.D03.
 From AV Require Import Model.D08.
+From AV Require Import Model.D13.
+From AV Require Import Model.D20.
 Import ListNotations.
 
 Definition dispatch (prop op : nat) (t : itree) : itree :=
@@ -17,5 +19,7 @@ Definition dispatch (prop op : nat) (t : itree) : itree :=
   | 2 => d02 op t
   | 3 => d03 op t
   | 8 => d08 op t
+  | 13 => d13 op t
+  | 20 => d20 op t
   | _ => bad_input
   end.
